@@ -1,1 +1,2 @@
-THEOREMS = {"ZkProofs.C18": ['Zk.C18_batch_recalculate_schedule_free', 'Zk.C18_tasks_write_disjoint_keys', 'Zk.C18_cellwise_fill_order_free', 'Zk.C18_cellwise_fill_spec', 'Zk.C18_retry_bounded']}
+THEOREMS = {"ZkProofs.C18": ['Zk.C18_batch_recalculate_schedule_free', 'Zk.C18_tasks_write_disjoint_keys', 'Zk.C18_cellwise_fill_order_free', 'Zk.C18_cellwise_fill_spec', 'Zk.C18_retry_bounded'],
+            "ZkProofs.C16Reopen": ['Zk.C16_current_source_opens_through_retry', 'Zk.C16_current_source_reopen_keeps_tree']}
